@@ -85,7 +85,7 @@ class Execution:
             raise Killed()
         a.npoints += 1
         a.trace.append((kind, desc))
-        if self.fault and self.fault[0] == a.idx and self.fault[1] == a.npoints:
+        if self.fault and self.fault[0] == a.idx and self.fault[1] == a.npoints and self.fault[2] in ('kill', 'eio'):
             if self.fault[2] == 'kill':
                 a.killed = True
                 for f in a.files:
@@ -98,7 +98,7 @@ class Execution:
                 for key in list(a.locks):
                     self.unlock(a, key)
                 raise Killed()
-            raise OSError(errno.ENOSPC if self.fault[2] == 'eio' else errno.EIO, 'injected I/O error at ' + kind)
+            raise OSError(errno.EIO, 'injected I/O error at ' + kind)
         return None
 
     def _body(self, a):
